@@ -259,7 +259,7 @@ func runFormatConsts(c *Ctx) {
 			for _, s := range fxStoresOf(fs, cd.field) {
 				// the stored value may be a local merged from the config's
 				// function and the default: look at every incoming value
-				for _, l := range (&fxAssume{}).leaves(s.Val, nil) {
+				for _, l := range fxHelperLeaves(s.Val, 0) {
 					if fxFuncOf(c.P, l) == nil {
 						continue
 					}
@@ -281,6 +281,11 @@ func runFormatConsts(c *Ctx) {
 		mstores := fxStoresOf(fs, "marshal")
 		sameAsMarshal := func(x ssa.Value) bool {
 			if len(mstores) == 1 && fxStripNoConv(x) == fxStripNoConv(mstores[0].Val) {
+				return true
+			}
+			// both come out of one private helper: x is the very value the
+			// helper returns as the marshaler
+			if len(mstores) == 1 && fxIsHelperResult(x, mstores[0].Val) {
 				return true
 			}
 			u, ok := fxStripNoConv(x).(*ssa.UnOp)
@@ -306,7 +311,7 @@ func runFormatConsts(c *Ctx) {
 		}
 		for _, kf := range []struct{ field, maker string }{{"keyOrder", "DefaultKeyCompare"}, {"keyLayer", "DefaultLayer"}} {
 			for _, s := range fxStoresOf(fs, kf.field) {
-				for _, l := range (&fxAssume{}).leaves(s.Val, nil) {
+				for _, l := range fxHelperLeaves(s.Val, 0) {
 					call, callee := fxCallee(l)
 					if callee == nil || callee != c.P.MastFunc(kf.maker) {
 						continue
